@@ -28,6 +28,9 @@ TARGETS = {
                "b58decode_addr", "encode_varint", "little_endian_to_int", "int_to_little_endian",
                "big_endian_to_int", "int_to_big_endian",
                "h160_to_p2pkh_address", "h160_to_p2sh_address", "h160_to_p2wpkh_address", "h256_to_p2wsh_address"],
+    # Class.method: static methods, and instance methods that only READ fields of self (the object is a value)
+    "wallet_utils": ["Bip32Path.is_hardened", "Bip32Path.is_private", "Bip32Path.convert_hardened"],
+    "script": ["Script.raw_serialize", "Script.serialize"],
 }
 # external primitives: name -> (params, expected source of the body).  Their semantics is a parameter of the theorems.
 EXTERNS = {
@@ -41,6 +44,7 @@ BINOPS = {ast.Add: "Add", ast.Sub: "Sub", ast.Mult: "Mul", ast.FloorDiv: "FloorD
           ast.BitXor: "BitXor", ast.Pow: "Pow"}
 CMPOPS = {ast.Eq: "Eq", ast.NotEq: "NotEq", ast.Lt: "Lt", ast.LtE: "LtE", ast.Gt: "Gt", ast.GtE: "GtE",
           ast.In: "In_", ast.NotIn: "NotIn", ast.Is: "Is", ast.IsNot: "IsNot"}
+# cross-module imports `from btc_hd_wallet.X import f` are resolved through Module.imports
 BUILTINS = {"len": "BLen", "ord": "BOrd", "chr": "BChr", "range": "BRange", "divmod": "BDivmod", "hex": "BHex",
             "bin": "BBin", "any": "BAny", "all": "BAll", "bytes": "BBytes", "int": "BInt", "str": "BStr",
             "min": "BMin", "max": "BMax", "bool": "BBool", "list": "BListOf"}
@@ -89,7 +93,27 @@ class Module:
         self.consts = {}         # name -> python value
         self.enums = {}          # "Class.MEMBER" -> True
         self.imports = {}        # local alias -> module short name (btc_hd_wallet.X) or ("from", module, name)
+        self.method_kind = {}    # "Class.method" -> "static" | "instance"
+        self.fields = {}         # Class -> ordered field names (attributes assigned on self in __init__ / __slots__)
         for node in self.tree.body:
+            if isinstance(node, ast.ClassDef):
+                fields = []
+                for f in node.body:
+                    if isinstance(f, ast.FunctionDef):
+                        decos = [ast.unparse(d) for d in f.decorator_list]
+                        q = "%s.%s" % (node.name, f.name)
+                        if decos == ["staticmethod"]:
+                            self.funcs[q] = f
+                            self.method_kind[q] = "static"
+                        elif decos == [] and f.args.args and f.args.args[0].arg == "self":
+                            self.funcs[q] = f
+                            self.method_kind[q] = "instance"
+                        if f.name == "__init__":
+                            for n in ast.walk(f):
+                                if isinstance(n, ast.Attribute) and isinstance(n.ctx, ast.Store) and isinstance(n.value, ast.Name) \
+                                        and n.value.id == "self" and n.attr not in fields:
+                                    fields.append(n.attr)
+                self.fields[node.name] = fields
             if isinstance(node, ast.FunctionDef):
                 self.funcs[node.name] = node
             elif isinstance(node, ast.Assign) and len(node.targets) == 1 and isinstance(node.targets[0], ast.Name):
@@ -113,12 +137,14 @@ class Module:
 
 
 class FunTrans:
-    def __init__(self, world, mod, fn):
+    def __init__(self, world, mod, fn, qual=None):
         self.world, self.mod, self.fn = world, mod, fn
+        self.cls = qual.split(".")[0] if qual and "." in qual else None
+        self.kind = mod.method_kind.get(qual) if qual else None
         a = fn.args
         if a.vararg or a.kwarg or a.kwonlyargs or a.posonlyargs:
             raise Untranslatable("star/kw-only parameters")
-        if fn.decorator_list:
+        if fn.decorator_list and not (self.kind == "static" and [ast.unparse(d) for d in fn.decorator_list] == ["staticmethod"]):
             raise Untranslatable("decorated function")
         self.params = [x.arg for x in a.args]
         self.locals = []
@@ -189,11 +215,19 @@ class FunTrans:
             imp = self.mod.imports.get(f.value.id)
             if imp and imp[0] == "module":
                 return "%s.%s" % (imp[1], f.attr)
+            # self.m(...) / cls.m(...) / Class.m(...) inside the class: the method of THIS class (no subclass overrides it:
+            # that is part of the structure premise)
+            if self.cls and f.value.id in ("self", "cls", self.cls) and ("%s.%s" % (self.cls, f.attr)) in self.mod.funcs:
+                return "%s.%s.%s" % (self.mod.name, self.cls, f.attr)
         return None
 
     def call_args(self, qual, node, scope):
         params, defaults = self.world.signature(qual)
         args = list(node.args)
+        if self.world.kind(qual) == "instance":
+            if not (isinstance(node.func, ast.Attribute) and isinstance(node.func.value, ast.Name) and node.func.value.id == "self"):
+                raise Untranslatable("instance method %s called on something other than self" % qual)
+            args = [node.func.value] + args
         if any(isinstance(a, ast.Starred) for a in args):
             raise Untranslatable("star args")
         slots = [None] * len(params)
@@ -237,6 +271,11 @@ class FunTrans:
                 return "(EGlob %s)" % cstr("%s.%s" % (self.mod.name, e.id))
             raise Untranslatable("free name %s" % e.id)
         if isinstance(e, ast.Attribute):
+            if isinstance(e.value, ast.Name) and e.value.id == "self" and self.kind == "instance" and isinstance(e.ctx, ast.Load):
+                fields = self.mod.fields.get(self.cls, [])
+                if e.attr in fields:
+                    return "(EField (EVar \"self\") %d %s)" % (fields.index(e.attr), cstr(e.attr))
+                raise Untranslatable("attribute self.%s is not a field set by __init__" % e.attr)
             if isinstance(e.value, ast.Name) and not self.is_local(e.value.id, scope):
                 q = "%s.%s" % (e.value.id, e.attr)
                 if q in self.mod.enums:
@@ -257,6 +296,11 @@ class FunTrans:
             for v in reversed(e.values[:-1]):
                 out = "(%s %s %s)" % (k, X(v), out)
             return out
+        if isinstance(e, ast.Compare) and len(e.ops) == 1 and isinstance(e.ops[0], ast.Eq) and isinstance(e.left, ast.Call) \
+                and isinstance(e.left.func, ast.Name) and e.left.func.id == "type" and len(e.left.args) == 1 and not e.left.keywords \
+                and isinstance(e.comparators[0], ast.Name) and e.comparators[0].id == "int" and not self.is_local("int", scope) \
+                and not self.is_local("type", scope):
+            return "(EBuiltin BIsInt %s)" % self.exprs(e.left.args, scope)
         if isinstance(e, ast.Compare):
             operands = [e.left] + list(e.comparators)
             for mid in operands[1:-1]:
@@ -467,6 +511,12 @@ class World:
         if (m, n) not in self.globals_used:
             self.globals_used.append((m, n))
 
+    def kind(self, qual):
+        if qual in EXTERNS:
+            return None
+        m, f = qual.split(".", 1)
+        return self.mod(m).method_kind.get(f)
+
     def known(self, qual):
         if qual in EXTERNS:
             return True
@@ -512,7 +562,7 @@ def generate(repo):
                 fn = W.mod(m).funcs.get(f)
                 if fn is None:
                     raise Untranslatable("function not found")
-                T = FunTrans(W, W.mod(m), fn)
+                T = FunTrans(W, W.mod(m), fn, f)
                 text = T.run()
                 info[qual] = (text, None, [c for c in T.calls if c not in EXTERNS], ast.dump(fn))
             except Untranslatable as ex:
